@@ -20,25 +20,29 @@ class Case:
     """one lmplz run: corpus bytes + options"""
 
     def __init__(self, data, order, prune=None, limit=None, interp=True, fallback=None, skip=False, renumber=False,
-                 intermediate=False, tag="", mem=None, stale=None):
+                 intermediate=False, tag="", mem=None, stale=None, io=None):
         self.data, self.order, self.prune, self.limit = data, order, prune, limit
         self.interp, self.fallback, self.skip, self.renumber, self.intermediate, self.tag = interp, fallback, skip, renumber, intermediate, tag
         # mem: memory / block configuration arguments (None = -S 20M --vocab_estimate 1000: everything in one block, no merging)
         # stale: None, or the number of junk bytes every output file holds BEFORE the run (output into pre-existing files)
         self.mem, self.stale = mem, stale
+        # io: None, or [seed, permille, pipe]: every read/write/pread/pwrite of the lmplz process transfers, with that
+        # probability, fewer bytes than requested (down to 1) or is interrupted (EINTR) -- what a pipe, a socket or a stopped
+        # and continued process legitimately does; pipe = the ARPA goes to standard output (a pipe) instead of a file
+        self.io = io
 
     def to_json(self):
         return {"corpus_hex": self.data.hex(), "order": self.order, "prune": self.prune,
                 "limit": None if self.limit is None else [w.hex() for w in self.limit], "interp": self.interp,
                 "fallback": self.fallback, "skip": self.skip, "renumber": self.renumber, "intermediate": self.intermediate,
-                "mem": self.mem, "stale": self.stale, "tag": self.tag, "corpus_preview": self.data[:300].decode("utf-8", "replace")}
+                "mem": self.mem, "stale": self.stale, "io": self.io, "tag": self.tag, "corpus_preview": self.data[:300].decode("utf-8", "replace")}
 
     @staticmethod
     def from_json(o):
         return Case(bytes.fromhex(o["corpus_hex"]), o["order"], o.get("prune"),
                     None if o.get("limit") is None else [bytes.fromhex(w) for w in o["limit"]], o.get("interp", True),
                     o.get("fallback"), o.get("skip", False), o.get("renumber", False), o.get("intermediate", False), o.get("tag", ""),
-                    o.get("mem"), o.get("stale"))
+                    o.get("mem"), o.get("stale"), o.get("io"))
 
     def argv(self, text, arpa, scratch, limit_file=None, inter_base=None):
         a = ["-o", str(self.order)] + (list(self.mem) if self.mem else ["-S", "20M", "--vocab_estimate", "1000"]) + \
@@ -328,7 +332,8 @@ def gen_case(rng, big=False):
         fallback = rng.choice([[], [], [], [0.5, 1, 1.5], [0.25], [0.5, 1], [0.75, 1.5, 2.5], [1, 2, 3], [0], [0.5, 0.5, 0.5]])
     return Case(data, order, prune, limit, interp=not rng.chance(1, 4), fallback=fallback, skip=skip,
                 renumber=rng.chance(1, 5), intermediate=rng.chance(1, 8), tag="gen", mem=gen_mem(rng, order, len(vocab)),
-                stale=rng.choice([None, None, None, 1, 300, 100000]))
+                stale=rng.choice([None, None, None, 1, 300, 100000]),
+                io=[rng.below(1 << 30), rng.choice([100, 300, 600, 900]), rng.chance(1, 2)] if rng.chance(1, 5) else None)
 
 
 # ---------------------------------------------------------------------------------------------
@@ -445,6 +450,21 @@ class Run:
 STAT_RE = re.compile(r"^(\d+) (\d+)(?:/(\d+))? D1=(\S+) D2=(\S+) D3\+=(\S+)$")
 
 
+def build_shim():
+    """harness/shim/io_shim.c (shared with C15/C09/C16), storm mode"""
+    import hashlib
+    src = os.path.join(vlib.ROOT, "harness", "shim", "io_shim.c")
+    outdir = os.path.join(vlib.CACHE, "shim")
+    os.makedirs(outdir, exist_ok=True)
+    key = hashlib.sha256(open(src, "rb").read()).hexdigest()[:16]
+    so = os.path.join(outdir, "io_shim-%s.so" % key)
+    if not os.path.exists(so):
+        tmp = so + ".%d.tmp" % os.getpid()
+        vlib.sh(["gcc", "-O2", "-shared", "-fPIC", "-o", tmp, src, "-ldl"], timeout=120, check=True)
+        os.replace(tmp, so)
+    return so
+
+
 def run_lmplz(lmplz, case, scratch, idx=0, keep=False):
     base = os.path.join(scratch, "k%d" % idx)
     text, arpa = base + ".txt", base + ".arpa"
@@ -460,13 +480,26 @@ def run_lmplz(lmplz, case, scratch, idx=0, keep=False):
         targets = [arpa] + ([inter + ".kenlm_intermediate", inter + ".vocab"] + [inter + ".%d" % k for k in range(1, case.order + 1)] if inter else [])
         for t in targets:
             open(t, "wb").write(junk)
-    cmd = ["timeout", "60", lmplz] + case.argv(text, arpa, scratch, limit_file, inter)
-    rc, out, err = vlib.sh(cmd, timeout=90)
+    env = None
+    to_pipe = bool(case.io and case.io[2])
+    cmd = ["timeout", "60", lmplz] + case.argv(text, "/dev/stdout" if to_pipe else arpa, scratch, limit_file, inter)
+    if case.io:
+        env = {"LD_PRELOAD": build_shim(), "IO_SHIM_STORM": "%d:%d" % (case.io[0], case.io[1])}
+    if to_pipe:
+        rc, outb, errb = vlib.sh(cmd, timeout=90, env=env, binary=True)
+        err = errb.decode("utf-8", "replace")
+        out = ""
+        if rc == 0:
+            open(arpa, "wb").write(outb)
+        elif os.path.exists(arpa):
+            os.remove(arpa)
+    else:
+        rc, out, err = vlib.sh(cmd, timeout=90, env=env)
     if rc in (126, 127) and "failed to run command" in err:
         # the binary is being relinked by a concurrent build of the repository: not an observation about lmplz
         import time
         time.sleep(3)
-        rc, out, err = vlib.sh(cmd, timeout=90)
+        rc, out, err = vlib.sh(cmd, timeout=90, env=env)
         if rc in (126, 127) and "failed to run command" in err:
             raise vlib.InfraError("cannot execute %s: %s" % (lmplz, err.strip()[-200:]))
     r = Run()
